@@ -279,6 +279,17 @@ def check_flatten(s, rule):
         keep = [lp for lp in lps if lp.ret == ("param", "$x")]
         s.ob(rule, con, len(moved) == 1 and len(keep) >= 1, "non-array leaves and leaves of too low rank are returned unchanged; others are reshaped",
              loc, key="flatten-leaf-cases", detail=f"{len(moved)} reshaped / {len(keep)} unchanged")
+        # which leaves are left alone: only what cannot carry the batch axes - a non-array, or an array of too low rank. A guard on anything
+        # else of the leaf (its dtype, its size, its values) lets some array leaves keep their (environment, step) axes while their
+        # siblings are flattened, and a minibatch row then gathers the wrong slab of that field
+        foreign = set()
+        for lp in lps:
+            for t_, _v in lp.conds:
+                for x_ in walk(t_):
+                    if isinstance(x_, tuple) and x_ and x_[0] == "attr" and x_[1] == ("param", "$x") and x_[2] not in ("ndim", "shape"):
+                        foreign.add(show(t_, maxlen=100))
+        s.ob(rule, con, not foreign, "a leaf is left unflattened only for being a non-array or of too low rank (no guard on its dtype / size / values)", loc, key="flatten-leaf-guard",
+             detail="; ".join(sorted(foreign)), necessary_for="each minibatch row is one collected sample with all of its fields still belonging together")
         if len(moved) != 1:
             continue
         got = nz.canon(moved[0].ret)
